@@ -944,3 +944,308 @@ Proof.
   rewrite abs_sys_eq, Ha, Hb. cbn [kill_state st_dns st_node_ns]. rewrite Hs, Hd, Hn.
   rewrite (absv_same s s1 T e W Hd He). reflexivity.
 Qed.
+
+(* ------------------------------------------------------------------------------------------ *)
+(* pop, update                                                                                  *)
+Lemma d_get_not_unspec d k h : snd (d_get d k h) <> RUnspec.
+Proof.
+  unfold d_get. destruct (dhas (d_dict d) k); [|cbn; discriminate].
+  destruct h as [i|]; [|cbn; discriminate].
+  destruct (nth_error (d_views d) i) as [[k'|v]|]; cbn; try discriminate.
+  - destruct (qname_eqb k' k); cbn; discriminate.
+  - destruct (Nat.eqb i (length (d_views d))); cbn; discriminate.
+Qed.
+
+Lemma track_in T c T' i : track T c = (T', i) -> (forall o, In o T' -> In o T \/ o = c) /\ In c T'.
+Proof.
+  unfold track. destruct (index_of c T) as [j|] eqn:E; intros H; inversion H; subst.
+  - split; [intros o Ho; left; exact Ho|]. apply (index_of_some c T' i E).
+  - split.
+    + intros o Ho. apply in_app_iff in Ho. destruct Ho as [Ho|[Ho|[]]]; [left; exact Ho|right; symmetry; exact Ho].
+    + apply in_app_iff. right. left. reflexivity.
+Qed.
+
+Lemma pop_good s T q :
+  Wf s T -> plainq q = true -> (contains_q s q = false \/ NoStale s T q None) ->
+  Good (finish T (pop_q s q)) (fun h => d_pop (abs_sys (s, T)) (norm (st_dns s) q) h).
+Proof.
+  intros W Hq Hsafe. unfold d_pop.
+  assert (dhas (d_dict (abs_sys (s, T))) (norm (st_dns s) q) = contains_q s q) as Hh.
+  { rewrite abs_sys_eq. cbn [d_dict]. apply (contains_abs s T q W Hq). }
+  destruct (contains_q s q) eqn:C.
+  2:{ unfold pop_q, getitem_q. rewrite C. cbn [finish]. unfold Good. cbn [fst snd hint_of]. rewrite Hh.
+      split; [exact W|]. eexists. split; [reflexivity|apply out_agrees_refl]. }
+  destruct Hsafe as [Hsafe|Hsafe]; [discriminate|].
+  pose proof (get_good s T q W Hq) as G.
+  destruct (getitem_wf s T q W Hq C) as [s1 [c [Hg [W1 [Hs [Hd [Hn [[e He] [Hc [Hu Hf]]]]]]]]]].
+  rewrite Hg in G. cbn [finish] in G. destruct (track T c) as [T' i] eqn:Et.
+  destruct G as [WT' [r' [Hget Hag]]]. cbn [fst snd hint_of] in WT', Hget, Hag.
+  assert (r' = RObj i) as ->.
+  { destruct Hag as [Hag|Hag]; [|exact Hag]. exfalso.
+    apply (d_get_not_unspec (abs_sys (s, T)) (norm (st_dns s) q) (Some i)). rewrite Hget. exact Hag. }
+  (* the deletion, on the state after the lookup *)
+  assert (contains_q s1 q = true) as C1 by (rewrite (contains_same s s1 q Hd Hs); exact C).
+  destruct (delitem_eq s1 T' q WT' Hq C1) as [s1' [c' [v [Hg' [_ [_ [_ [_ [_ [_ [Hu' [_ [Hv' Hdel]]]]]]]]]]]]].
+  destruct (Hu' c Hc) as [-> ->].
+  unfold pop_q. rewrite Hg, Hdel. cbn [finish]. rewrite Et. unfold Good. cbn [fst snd hint_of].
+  destruct (track_in T c T' i Et) as [HT' HcT'].
+  assert (forall o q', In o T' -> nth_error (st_objs s1) o = Some (Live q') ->
+                       norm (st_dns s1) q' = norm (st_dns s1) q -> o = c) as Hst.
+  { intros o q' Ho Hl Hnm. destruct (HT' o Ho) as [HoT|HoT]; [|exact HoT]. rewrite Hd in Hnm.
+    assert (nth_error (st_objs s) o = Some (Live q')) as Hl0.
+    { rewrite He in Hl. rewrite nth_error_app_l in Hl; [exact Hl|]. apply view_ok_lt. apply (wf_views s T W). exact HoT. }
+    destruct (Hsafe o q' HoT Hl0 Hnm) as [H|H]; [discriminate|]. destruct (Hu o H) as [_ ->]. reflexivity. }
+  destruct (kill_good s1 T' q c v None WT' Hq Hc Hv' Hst) as [W2 [Ha Hb]].
+  split; [exact W2|]. rewrite Hh, Hget. rewrite <- Hd. unfold d_del. rewrite abs_sys_eq. cbn [d_dict d_views d_dns d_node_ns].
+  rewrite (abs_get (st_dns s1) (st_store s1) q (wf_keys s1 T' WT') Hq). fold (skey s1 q). rewrite Hv'.
+  eexists. split; [|apply out_agrees_refl].
+  rewrite abs_sys_eq, Ha, Hb. reflexivity.
+Qed.
+
+Lemma set_effect s T q v :
+  Wf s T -> plainq q = true ->
+  Wf (setitem_q s q v) T /\
+  abs_sys (setitem_q s q v, T) = with_dict (abs_sys (s, T)) (dset (d_dict (abs_sys (s, T))) (norm (st_dns s) q) v).
+Proof.
+  intros W Hq. destruct (set_good s T q v W Hq) as [W' [r' [H _]]]. cbn [fst snd] in *.
+  split; [exact W'|]. apply (f_equal fst) in H. cbn [fst] in H. symmetry. exact H.
+Qed.
+
+Lemma update_good s T l :
+  Wf s T -> forallb (fun e => acc_wf (st_node_ns s) (fst e)) l = true ->
+  Good ((fst (update_l s l), T), snd (update_l s l)) (fun _ => d_update (abs_sys (s, T)) l).
+Proof.
+  revert s. induction l as [|[a v] r IH]; intros s W Hl.
+  - cbn. unfold Good. cbn. split; [exact W|]. eexists. split; [reflexivity|apply out_agrees_refl].
+  - cbn [forallb fst] in Hl. apply andb_true_iff in Hl. destruct Hl as [Ha Hr].
+    destruct (acc_wf_some _ a Ha) as [q [Hq Hp]].
+    cbn [update_l d_update]. rewrite resolve_acc_q, Hq.
+    assert (acc_key (abs_sys (s, T)) a = Some (norm (st_dns s) q)) as Hk
+      by (unfold acc_key; cbn; rewrite Hq; reflexivity).
+    rewrite Hk. destruct (set_effect s T q v W Hp) as [W' Hab]. rewrite <- Hab.
+    apply IH; [exact W'|exact Hr].
+Qed.
+
+(* ------------------------------------------------------------------------------------------ *)
+(* renaming through an Attribute object                                                         *)
+Lemma set_nth_set_nth {A} (l : list A) o x y : set_nth (set_nth l o x) o y = set_nth l o y.
+Proof. revert o. induction l as [|a r IH]; intros [|o]; cbn; try reflexivity. rewrite IH. reflexivity. Qed.
+Lemma set_nth_id {A} (l : list A) o x : nth_error l o = Some x -> set_nth l o x = l.
+Proof.
+  revert o. induction l as [|a r IH]; intros [|o]; cbn; try discriminate.
+  - intros H. inversion H. reflexivity.
+  - intros H. rewrite (IH o H). reflexivity.
+Qed.
+Lemma map_set_nth {A B} (f : A -> B) (l : list A) i x : map f (set_nth l i x) = set_nth (map f l) i (f x).
+Proof. revert i. induction l as [|a r IH]; intros [|i]; cbn; try reflexivity. rewrite IH. reflexivity. Qed.
+
+(* the entry of q is removed and the object o that viewed it becomes a view of q' (o was cached for q) *)
+Lemma move_good s1 T i o q q' v :
+  Wf s1 T -> plainq q = true -> plainq q' = true -> nth_error T i = Some o ->
+  aget qname_eqb (st_cache s1) q = Some o -> aget str_eqb (st_store s1) (skey s1 q) = Some v ->
+  contains_q s1 q' = true -> norm (st_dns s1) q <> norm (st_dns s1) q' ->
+  (forall t q'', In t T -> nth_error (st_objs s1) t = Some (Live q'') ->
+                 norm (st_dns s1) q'' = norm (st_dns s1) q -> t = o) ->
+  let F := mkA (adel str_eqb (st_store s1) (skey s1 q)) (st_dns s1) (st_node_ns s1)
+               (adel qname_eqb (st_cache s1) q) (set_nth (st_objs s1) o (Live q')) in
+  Wf F T /\
+  abs_store (st_dns F) (st_store F) = ddel (abs_store (st_dns s1) (st_store s1)) (norm (st_dns s1) q) /\
+  absv F T = set_nth (kill_views (norm (st_dns s1) q) v (absv s1 T)) i (VLive (norm (st_dns s1) q')).
+Proof.
+  intros W Hq Hq' Hi Hc Hv Hc' Hne Hst F. subst F.
+  pose proof (cache_live s1 T q o W Hc) as Hl.
+  assert (o < length (st_objs s1)) as Hlt by (apply nth_error_Some; rewrite Hl; discriminate).
+  assert (skey s1 q <> skey s1 q') as Hk.
+  { unfold skey. intros H. apply (etree_key_norm_iff (st_dns s1) q q' Hq Hq') in H. contradiction. }
+  split; [|split].
+  - destruct W as [H1 H2 H3 H4 H5 H6 H7 H8]. constructor; cbn; try assumption.
+    + apply keys_ok_del. exact H3.
+    + apply (nodup_adel str_eqb). exact H4.
+    + apply (nodup_adel qname_eqb). exact H5.
+    + intros q'' x Hin. apply (in_adel_neq _ _ _ H5) in Hin. destruct Hin as [Hin Hnq]. cbn in Hnq.
+      specialize (H6 q'' x Hin). rewrite nth_error_set_nth_other; [exact H6|].
+      intros <-. rewrite Hl in H6. inversion H6. subst. apply Hnq. reflexivity.
+    + intros t Ht. pose proof (H8 t Ht) as Hvt. unfold view_ok in *. cbn.
+      destruct (Nat.eq_dec o t) as [<-|Hnt].
+      * rewrite nth_error_set_nth_same by exact Hlt. rewrite Hq'. cbn [andb].
+        unfold contains_q, skey, ahas in *. cbn [st_store st_dns].
+        rewrite (aget_adel_other str_eqb str_eqb_eq); [exact Hc'|exact Hk].
+      * rewrite nth_error_set_nth_other by exact Hnt.
+        destruct (nth_error (st_objs s1) t) as [[q''|]|] eqn:Et; try assumption.
+        apply andb_true_iff in Hvt. destruct Hvt as [Hp Hct]. rewrite Hp. cbn [andb].
+        unfold contains_q, skey, ahas in *. cbn [st_store st_dns].
+        rewrite (aget_adel_other str_eqb str_eqb_eq); [exact Hct|].
+        intros Hkk. apply (etree_key_norm_iff (st_dns s1) q q'' Hq Hp) in Hkk.
+        apply Hnt. symmetry. apply (Hst t q'' Ht Et). symmetry. exact Hkk.
+  - cbn. unfold skey. apply abs_del; [apply (wf_keys s1 T W)|exact Hq].
+  - pose proof (wf_T s1 T W) as ND.
+    rewrite (absv_set_nth s1 (mkA (adel str_eqb (st_store s1) (skey s1 q)) (st_dns s1) (st_node_ns s1)
+                                  (adel qname_eqb (st_cache s1) q) (set_nth (st_objs s1) o (Live q')))
+               T i o (Live q') ND Hi Hlt eq_refl eq_refl). cbn [abs_obj].
+    (* only position i is affected by kill_views *)
+    rewrite kill_views_map. unfold absv.
+    clear Hc Hv Hc' Hk. revert i Hi. induction T as [|t r IH]; intros [|i] Hi; cbn in *; try discriminate.
+    + inversion Hi. subst t. f_equal. inversion ND as [|? ? Ht ND']. subst.
+      rewrite map_map. apply map_ext_in. intros t Ht'.
+      pose proof (wf_views s1 _ W t (or_intror Ht')) as Hvt. unfold view_ok in Hvt. unfold obj_at.
+      destruct (nth_error (st_objs s1) t) as [[q''|v' q'']|] eqn:Et; [| |discriminate].
+      * rewrite (nth_error_nth _ _ _ Et). cbn [abs_obj].
+        destruct (qname_eqb (norm (st_dns s1) q'') (norm (st_dns s1) q)) eqn:En; [|reflexivity].
+        apply qname_eqb_eq in En. rewrite (Hst t q'' (or_intror Ht') Et En) in Ht'. contradiction.
+      * rewrite (nth_error_nth _ _ _ Et). reflexivity.
+    + inversion ND as [|? ? Ht ND']. subst. f_equal.
+      * pose proof (wf_views s1 _ W t (or_introl eq_refl)) as Hvt. unfold view_ok in Hvt. unfold obj_at.
+        destruct (nth_error (st_objs s1) t) as [[q''|v' q'']|] eqn:Et; [| |discriminate].
+        -- rewrite (nth_error_nth _ _ _ Et). cbn [abs_obj].
+           destruct (qname_eqb (norm (st_dns s1) q'') (norm (st_dns s1) q)) eqn:En; [|reflexivity].
+           apply qname_eqb_eq in En. exfalso. apply Ht.
+           rewrite (Hst t q'' (or_introl eq_refl) Et En). apply nth_error_In in Hi. exact Hi.
+        -- rewrite (nth_error_nth _ _ _ Et). reflexivity.
+      * apply IH; try assumption.
+        -- destruct W as [H1 H2 H3 H4 H5 H6 H7 H8]. constructor; try assumption.
+           intros t' Ht'. apply H8. right. exact Ht'.
+        -- intros t' q'' Ht' Et' En. apply (Hst t' q'' (or_intror Ht') Et' En).
+Qed.
+
+Lemma mkD_eq a a' b b' c c' d d' : a = a' -> b = b' -> c = c' -> d = d' -> mkD a b c d = mkD a' b' c' d'.
+Proof. intros -> -> -> ->. reflexivity. Qed.
+
+Lemma kill_set_nth_comm K v vs i K' :
+  qname_eqb K' K = false ->
+  kill_views K v (set_nth vs i (VLive K')) = set_nth (kill_views K v vs) i (VLive K').
+Proof. intros H. rewrite !kill_views_map, map_set_nth. rewrite H. reflexivity. Qed.
+
+Lemma wf_set_live s1 T o q' :
+  Wf s1 T -> In o T -> (forall q'', ~ In (q'', o) (st_cache s1)) -> plainq q' = true -> contains_q s1 q' = true ->
+  Wf (with_objs s1 (set_nth (st_objs s1) o (Live q'))) T.
+Proof.
+  intros W Ho Hnc Hq' Hc'. pose proof (view_ok_lt s1 o (wf_views s1 T W o Ho)) as Hlt.
+  destruct W as [H1 H2 H3 H4 H5 H6 H7 H8]. constructor; cbn; try assumption.
+  - intros q'' x Hin. specialize (H6 q'' x Hin). rewrite nth_error_set_nth_other; [exact H6|].
+    intros <-. exact (Hnc q'' Hin).
+  - intros t Ht. specialize (H8 t Ht). unfold view_ok in *. cbn.
+    destruct (Nat.eq_dec o t) as [<-|Hnt].
+    + rewrite nth_error_set_nth_same by exact Hlt. rewrite Hq'. exact Hc'.
+    + rewrite nth_error_set_nth_other by exact Hnt. exact H8.
+Qed.
+
+Lemma rename_main s T i o q q' v :
+  Wf s T -> nth_error T i = Some o -> nth_error (st_objs s) o = Some (Live q) -> plainq q = true ->
+  aget str_eqb (st_store s) (skey s q) = Some v -> plainq q' = true ->
+  norm (st_dns s) q <> norm (st_dns s) q' -> NoStale s T q (Some o) ->
+  exists F, set_new_key s o q' = (F, RNone) /\ Wf F T /\
+    abs_sys (F, T) =
+    mkD (ddel (dset (abs_store (st_dns s) (st_store s)) (norm (st_dns s) q') v) (norm (st_dns s) q))
+        (set_nth (kill_views (norm (st_dns s) q) v (absv s T)) i (VLive (norm (st_dns s) q')))
+        (st_dns s) (st_node_ns s).
+Proof.
+  intros W Hi Hl Hq Hv Hq' Hne Hns.
+  assert (qname_eqb q q' = false) as Hqq.
+  { destruct (qname_eqb q q') eqn:E; [|reflexivity]. apply qname_eqb_eq in E. subst. exfalso. apply Hne. reflexivity. }
+  assert (q' <> q) as Hqn by (intros ->; rewrite qname_eqb_refl in Hqq; discriminate).
+  assert (skey s q' <> skey s q) as Hk.
+  { unfold skey. intros H. apply (etree_key_norm_iff (st_dns s) q' q Hq' Hq) in H. apply Hne. symmetry. exact H. }
+  pose proof (nth_error_In _ _ Hi) as HoT.
+  assert (o < length (st_objs s)) as Hlt by (apply nth_error_Some; rewrite Hl; discriminate).
+  unfold set_new_key. rewrite Hl. cbn [oq]. rewrite Hqq. unfold obj_value at 1. rewrite Hl, Hv.
+  destruct (set_effect s T q' v W Hq') as [W1 Hab1].
+  set (s1 := setitem_q s q' v) in *.
+  assert (st_store s1 = aset str_eqb (st_store s) (skey s q') v) as Es by reflexivity.
+  assert (st_dns s1 = st_dns s) as Ed by reflexivity.
+  assert (st_node_ns s1 = st_node_ns s) as En by reflexivity.
+  assert (st_objs s1 = st_objs s ++ [Live q']) as Eo by reflexivity.
+  assert (st_cache s1 = aset qname_eqb (st_cache s) q' (length (st_objs s))) as Ec by reflexivity.
+  assert (absv s1 T = absv s T) as Eav by (apply (absv_same s s1 T [Live q'] W Ed Eo)).
+  assert (abs_store (st_dns s1) (st_store s1) = dset (abs_store (st_dns s) (st_store s)) (norm (st_dns s) q') v) as Eas.
+  { rewrite !abs_sys_eq in Hab1. apply (f_equal d_dict) in Hab1. exact Hab1. }
+  assert (nth_error (st_objs s1) o = Some (Live q)) as Hl1 by (rewrite Eo, nth_error_app_l by exact Hlt; exact Hl).
+  assert (o < length (st_objs s1)) as Hlt1 by (apply nth_error_Some; rewrite Hl1; discriminate).
+  assert (aget str_eqb (st_store s1) (skey s1 q) = Some v) as Hv1.
+  { rewrite (skey_same s s1 q Ed), Es. rewrite (aget_aset_other str_eqb str_eqb_eq); [exact Hv|exact Hk]. }
+  assert (aget str_eqb (st_store s1) (skey s1 q') = Some v) as Hv1'.
+  { rewrite (skey_same s s1 q' Ed), Es. apply (aget_aset_same str_eqb str_eqb_eq). }
+  assert (contains_q s1 q' = true) as Hc1' by (unfold contains_q, ahas; rewrite Hv1'; reflexivity).
+  assert (contains_q s1 q = true) as Hc1 by (unfold contains_q, ahas; rewrite Hv1; reflexivity).
+  assert (aget qname_eqb (st_cache s1) q = aget qname_eqb (st_cache s) q) as Hcq.
+  { rewrite Ec. apply (aget_aset_other qname_eqb qname_eqb_eq). exact Hqn. }
+  assert (forall t q'', In t T -> nth_error (st_objs s1) t = Some (Live q'') ->
+                        norm (st_dns s) q'' = norm (st_dns s) q -> t = o \/ aget qname_eqb (st_cache s) q = Some t) as Hst1.
+  { intros t q'' Ht Et Hn.
+    assert (nth_error (st_objs s) t = Some (Live q'')) as Et0.
+    { rewrite Eo in Et. rewrite nth_error_app_l in Et; [exact Et|]. apply view_ok_lt. apply (wf_views s T W t Ht). }
+    destruct (Hns t q'' Ht Et0 Hn) as [H|H]; [left; inversion H; reflexivity|right; exact H]. }
+  set (s2 := with_objs s1 (set_nth (st_objs s1) o (Live q'))).
+  assert (contains_q s2 q = true) as Hc2 by exact Hc1.
+  assert (nth_error (st_objs s2) o = Some (Live q')) as Hl2 by (apply nth_error_set_nth_same; exact Hlt1).
+  assert (aget qname_eqb (st_cache s) q = Some o \/ aget qname_eqb (st_cache s) q <> Some o) as Hdec.
+  { destruct (aget qname_eqb (st_cache s) q) as [c|]; [|right; discriminate].
+    destruct (Nat.eq_dec c o) as [->|Hco]; [left; reflexivity|right; congruence]. }
+  destruct Hdec as [Ecq|Ecq].
+  - (* o is the object cached for q *)
+    rewrite Ecq in Hcq.
+    unfold delitem_q. rewrite Hc2. unfold getitem_q. rewrite Hc2.
+    change (st_cache s2) with (st_cache s1). rewrite Hcq.
+    unfold obj_value. rewrite Hl2. change (st_store s2) with (st_store s1).
+    change (skey s2 q') with (skey s1 q'). rewrite Hv1'. cbn [oq].
+    eexists. split; [reflexivity|].
+    cbn [st_objs st_store st_dns st_node_ns st_cache with_objs s2]. rewrite !set_nth_set_nth.
+    assert (forall t q'', In t T -> nth_error (st_objs s1) t = Some (Live q'') ->
+                          norm (st_dns s1) q'' = norm (st_dns s1) q -> t = o) as Hst.
+    { intros t q'' Ht Et Hn. rewrite Ed in Hn. destruct (Hst1 t q'' Ht Et Hn) as [H|H]; [exact H|].
+      rewrite Ecq in H. inversion H. reflexivity. }
+    assert (norm (st_dns s1) q <> norm (st_dns s1) q') as Hne1 by (rewrite Ed; exact Hne).
+    destruct (move_good s1 T i o q q' v W1 Hq Hq' Hi Hcq Hv1 Hc1' Hne1 Hst) as [WF [Ha Hb]].
+    change (skey s2 q) with (skey s1 q).
+    split; [exact WF|]. rewrite abs_sys_eq. apply mkD_eq; try reflexivity.
+    + rewrite <- Eas, <- Ed. exact Ha.
+    + rewrite <- Eav, <- Ed. exact Hb.
+  - (* another object, or none, is cached for q: the state after the re-labelling of o is well-formed *)
+    assert (forall q'', ~ In (q'', o) (st_cache s1)) as Hnc.
+    { intros q'' Hin. rewrite Ec in Hin. apply in_aset_inv in Hin.
+      destruct Hin as [Hin|[Hin|[w [Hin [Hw He]]]]].
+      + pose proof (wf_cache s T W q'' o Hin) as H. rewrite Hl in H. inversion H. subst q''.
+        apply Ecq. apply (in_aget_nodup qname_eqb qname_eqb_eq _ _ _ (wf_cnodup s T W) Hin).
+      + inversion Hin. lia.
+      + cbn in Hw. lia. }
+    pose proof (wf_set_live s1 T o q' W1 HoT Hnc Hq' Hc1') as W2. fold s2 in W2.
+    destruct (delitem_eq s2 T q W2 Hq Hc2) as [s3 [c [v' [Hg [W3 [Hs3 [Hd3 [Hn3 [[e He3] [Hc3 [Hu3 [Hf3 [Hv3 Hdel]]]]]]]]]]]]].
+    rewrite Hdel.
+    assert (v' = v) as ->.
+    { change (st_store s2) with (st_store s1) in Hv3. change (skey s2 q) with (skey s1 q) in Hv3.
+      rewrite Hv1 in Hv3. inversion Hv3. reflexivity. }
+    assert (c <> o) as Hco.
+    { intros ->. destruct (aget qname_eqb (st_cache s) q) as [c'|] eqn:E'.
+      - destruct (Hu3 c') as [_ H]; [exact Hcq|]. subst c'. apply Ecq. reflexivity.
+      - apply Hf3; [exact Hcq|exact HoT]. }
+    assert (o < length (st_objs s2)) as Hlt2 by (apply nth_error_Some; rewrite Hl2; discriminate).
+    assert (nth_error (st_objs s3) o = Some (Live q')) as Hl3.
+    { rewrite He3, nth_error_app_l by exact Hlt2. exact Hl2. }
+    assert (set_nth (st_objs (kill_state s3 q c v q)) o (Live q') = st_objs (kill_state s3 q c v q)) as Hid.
+    { apply set_nth_id. cbn [st_objs kill_state]. rewrite nth_error_set_nth_other by exact Hco. exact Hl3. }
+    rewrite Hid. exists (kill_state s3 q c v q). split; [reflexivity|].
+    assert (aget str_eqb (st_store s3) (skey s3 q) = Some v) as Hv3'.
+    { rewrite (skey_same s2 s3 q Hd3), Hs3. exact Hv3. }
+    assert (forall t q'', In t T -> nth_error (st_objs s3) t = Some (Live q'') ->
+                          norm (st_dns s3) q'' = norm (st_dns s3) q -> t = c) as Hst3.
+    { intros t q'' Ht Et Hn. rewrite Hd3 in Hn. change (st_dns s2) with (st_dns s) in Hn.
+      assert (t < length (st_objs s2)) as Htl by (apply view_ok_lt; apply (wf_views s2 T W2 t Ht)).
+      rewrite He3, nth_error_app_l in Et by exact Htl.
+      destruct (Nat.eq_dec o t) as [<-|Hnt].
+      - rewrite Hl2 in Et. inversion Et. subst q''. exfalso. apply Hne. symmetry. exact Hn.
+      - change (st_objs s2) with (set_nth (st_objs s1) o (Live q')) in Et.
+        rewrite nth_error_set_nth_other in Et by exact Hnt.
+        destruct (Hst1 t q'' Ht Et Hn) as [H|H]; [congruence|].
+        destruct (Hu3 t) as [_ ->]; [rewrite <- H; exact Hcq|reflexivity]. }
+    destruct (kill_good s3 T q c v None W3 Hq Hc3 Hv3' Hst3) as [W4 [Ha Hb]].
+    split; [exact W4|]. rewrite abs_sys_eq. apply mkD_eq.
+    + rewrite Ha, Hs3, Hd3. change (st_store s2) with (st_store s1). change (st_dns s2) with (st_dns s1).
+      rewrite Eas, Ed. reflexivity.
+    + rewrite Hb. rewrite (absv_same s2 s3 T e W2 Hd3 He3).
+      rewrite (absv_set_nth s1 s2 T i o (Live q') (wf_T s T W) Hi Hlt1 eq_refl eq_refl). cbn [abs_obj].
+      rewrite Hd3. change (st_dns s2) with (st_dns s). rewrite Ed.
+      rewrite kill_set_nth_comm; [rewrite Eav; reflexivity|].
+      destruct (qname_eqb (norm (st_dns s) q') (norm (st_dns s) q)) eqn:E; [|reflexivity].
+      apply qname_eqb_eq in E. exfalso. apply Hne. symmetry. exact E.
+    + cbn [st_dns kill_state]. rewrite Hd3. reflexivity.
+    + cbn [st_node_ns kill_state]. rewrite Hn3. reflexivity.
+Qed.
